@@ -263,6 +263,16 @@ func (p *Prog) tryReplay(fn *ssa.Function, o *Obligation, model string, predicte
 		ro.why = "only package-level functions of the main package are replayed"
 		return ro
 	}
+	// A clause that mentions an uninterpreted spec function (validRE, reMatch, regValidates, …) is violated in the
+	// model under the model's own, arbitrary interpretation of that function: running the real code on the model's
+	// inputs says nothing about the clause. (Found with seed C14-b: Pattern("s6") on "s7" returning an error was
+	// reported as "reproduced" although it is the correct answer.) Such counterexamples are not replayed.
+	for name, pr := range p.Cons.Preds {
+		if pr.UF && regexp.MustCompile(`\b`+regexp.QuoteMeta(name)+`\(`).MatchString(o.Text) {
+			ro.why = "the clause depends on the uninterpreted spec function " + name + ": the model's inputs do not decide it on the real code"
+			return ro
+		}
+	}
 	res := fn.Signature.Results()
 	if res.Len() != 1 {
 		ro.why = "needs exactly one result"
